@@ -25,6 +25,7 @@ OWNERS = {
         f"{CLS}.connect": "placeholder / swap per host",
         f"{CLS}._get": "pooled connection per host",
         f"{CLS}._release_acquired": "gives the per-host slot back",
+        f"{CLS}._close_immediately": "clears everything on close (together with _acquired)",
     },
     "_waiters": {
         f"{CLS}.__init__": "creates the queue table",
@@ -315,6 +316,19 @@ def run(chk):
                           "the wake-up search can be restricted to a subset of the waiter queues: when those queues only hold finished (cancelled / timed-out) waiters the freed slot wakes nobody and live waiters of other keys stay blocked")
     else:
         chk.violation("C07.wake.scan", relw, "for key in queues", "loop over all keys", "_release_waiter() no longer scans the waiter queues per key")
+    # a wake-up hands the freed slot to the woken waiter: until that task runs, the slot must not look free to a newcomer (known finding F121)
+    av_reads = {a.attr for a in ast.walk(avail.node) if isinstance(a, ast.Attribute) and isinstance(a.value, ast.Name) and a.value.id == "self"}
+    for call, b in sets:
+        st = K.stmt_of(call)
+        blk = PC._block_of(st) or []
+        marks = {t.value.attr if isinstance(t, ast.Subscript) else t.attr for x in blk if isinstance(x, (ast.Assign, ast.AugAssign)) for t in (x.targets if isinstance(x, ast.Assign) else [x.target])
+                 if (isinstance(t, ast.Subscript) and isinstance(t.value, ast.Attribute) and norm.raw(t.value.value) == "self") or (isinstance(t, ast.Attribute) and norm.raw(t.value) == "self")}
+        marks |= {c.func.value.attr for x in blk for c in ast.walk(x) if isinstance(c, ast.Call) and isinstance(c.func, ast.Attribute) and c.func.attr in ("add", "append") and isinstance(c.func.value, ast.Attribute) and norm.raw(c.func.value.value) == "self"}
+        if marks & av_reads:
+            chk.ok("C07.wake.reserve", call, f"the woken waiter's slot is reserved (self.{sorted(marks & av_reads)[0]}, consulted by _available_connections) until it resumes")
+        else:
+            chk.violation("C07.wake.reserve", call, K.short(call), "a reservation that _available_connections() subtracts until the waiter resumes",
+                          "the freed slot is announced to a waiter but stays visible as free: a task that re-enters connect() before the woken task runs (a loop of back-to-back requests on limit=1) takes it through the pool fast path, the waiter finds nothing, queues again and can starve until its timeout")
     # ---- C07.handoff / C07.waiterfinally / C07.stalealias ------------------------------------------------
     aw = [a for a in prog.awaits_in(wait.node) if isinstance(a.value, ast.Name)]
     futs = {a.value.id for a in aw}
@@ -373,6 +387,7 @@ def run(chk):
     # ---- C07.close (T2) -------------------------------------------------------------------------------------
     _close_rule(chk, repo, closei)
 
+    middleware_rule(chk, repo)
     # ---- C07.capacity (dtable) ---------------------------------------------------------------------------------
     _capacity(chk, avail)
 
@@ -521,7 +536,7 @@ def _close_rule(chk, repo, closei):
         chk.violation("C07.close", closei, "for proto in self._acquired / self._conns.values()", "close loops", "close() does not visit both the pooled and the acquired connections")
     # finally: cancel all waiters, clear the three containers
     fins = [t for t in ast.walk(closei.node) if isinstance(t, ast.Try) and t.finalbody]
-    need = {"self._conns.clear()": False, "self._acquired.clear()": False, "self._waiters.clear()": False}
+    need = {"self._conns.clear()": False, "self._acquired.clear()": False, "self._acquired_per_host.clear()": False, "self._waiters.clear()": False}
     cancel = False
     for t in fins:
         for k in need:
@@ -547,6 +562,26 @@ def _close_rule(chk, repo, closei):
         chk.ok("C07.close", sets[0][0], "close(): the closed flag is latched")
     else:
         chk.violation("C07.close", closei, "self._closed = True", "latch", "close() does not latch the closed state")
+    # a closed connector hands out nothing and queues nobody: connect() refuses at entry, and a waiter that resumes after close() refuses
+    # instead of queuing again (close() cancelled only the waiters it knew about)
+    for q in (f"{CLS}.connect", f"{CLS}._wait_for_available_connection"):
+        f = repo.func(MOD, q)
+        rs = [r for r, _c in K.raises_in(f) if PC.has_lit(PC.pc(r, raw=True), "self._closed", True) is not None]
+        if rs:
+            chk.ok("C07.close", rs[0], f"{q.split('.')[-1]}(): a closed connector raises instead of handing out or queuing")
+        else:
+            chk.violation("C07.close", f, q.split(".")[-1], "if self._closed: raise ClientConnectionError('Connector is closed.')",
+                          f"{q.split('.')[-1]}() never looks at the closed flag: a request that re-enters connect() after session.close() (the one-shot retry of an idempotent method whose connection close() just closed) finds stale counters, enqueues a waiter after close() cancelled the ones it knew, and hangs until the total timeout - forever with total=None")
+    # an acquired connection with unsent request data is aborted: a graceful close waits for a flush that a stalled peer never allows
+    acq_loops = [l for l in ast.walk(closei.node) if isinstance(l, ast.For) and norm.raw(l.iter) == "self._acquired"]
+    for l in acq_loops:
+        ab = [c for c in ast.walk(l) if isinstance(c, ast.Call) and isinstance(c.func, ast.Attribute) and c.func.attr == "abort"
+              and any("get_write_buffer_size" in lt.text for cl_ in PC.pc(c, stop=l, raw=True) for lt in cl_)]
+        if ab:
+            chk.ok("C07.close", ab[0], "close(): an acquired connection whose write buffer is not empty is aborted after close()")
+        else:
+            chk.violation("C07.close", l, K.short(l, 50), "if transport.get_write_buffer_size(): transport.abort()",
+                          "close() closes acquired connections gracefully and then awaits their `closed` futures: with an upload stalled against a peer that stopped reading the write buffer never drains, connection_lost() never fires and `await session.close()` never returns (the socket stays open with the unsent body buffered)")
 
 
 def _capacity(chk, avail):
@@ -578,3 +613,31 @@ def _capacity(chk, avail):
     if not bad:
         chk.ok("C07.capacity", avail, f"capacity function agrees with the reference on all {rows} rows of the (limit, limit_per_host, |acquired|, |acquired[key]|) grid 0..3")
         chk.exhaustive_domains.append(f"C07.capacity: {rows} rows")
+
+
+def middleware_rule(chk, repo):
+    """A client middleware that sends the request again must give the first response's connection back before it does: with the pool at
+    its limit the retry waits for the slot that only its own unread response can free (F120)."""
+    DG = "aiohttp/client_middleware_digest_auth.py"
+    call = repo.func(DG, "DigestAuthMiddleware.__call__")
+    n = 0
+    for lp in [l for l in ast.walk(call.node) if isinstance(l, (ast.For, ast.While))]:
+        sends = [a for a in prog.awaits_in(lp) if isinstance(a.value, ast.Call) and norm.raw(a.value.func) == "handler"]
+        if not sends:
+            continue
+        n += 1
+        lv = {x.id for x in ast.walk(lp.target) if isinstance(x, ast.Name)} if isinstance(lp, ast.For) else set()
+        rel = []
+        for c in ast.walk(lp):
+            if isinstance(c, ast.Call) and isinstance(c.func, ast.Attribute) and c.func.attr in ("release", "close") and c.lineno > sends[0].lineno:
+                lits = [l for cl_ in PC.pc(c, stop=lp, raw=True) for l in cl_]
+                # guards on the loop variable (which iteration) and on the authentication outcome are fine
+                other = [l for l in lits if not any(v in l.text for v in lv) and "_authenticate" not in l.text]
+                if not other:
+                    rel.append(c)
+        if rel:
+            chk.ok("C07.middleware", rel[0], "the digest middleware releases the challenge response before it sends the request again")
+        else:
+            chk.violation("C07.middleware", sends[0], K.short(sends[0]), "response.release() before the next handler(request)",
+                          "DigestAuthMiddleware calls handler(request) a second time while the 401 response of the first call still holds its connection: when the 401 body has not fully arrived and the pool is at its limit (limit=1, or `limit` concurrent requests) the retry queues for a slot that only its own unread response can free - the request deadlocks on itself")
+    chk.expect_count("C07.middleware", n, 1, "retry loops around handler(request) in the digest middleware")
